@@ -1,0 +1,100 @@
+//! Verification hooks: compiled only with `--cfg john_yu_sm9_core_verif`.
+//!
+//! This module only *adds* public access paths to crate-private items so that an
+//! external harness can drive them; it changes no behaviour.
+#![allow(missing_docs)]
+
+pub use crate::fields::{FieldElement, Fq, Fq12, Fq2, Fq4, Fr};
+pub use crate::groups::{
+    AffineG, AffineG1, AffineG2, G1Params, G2Params, GroupElement, GroupParams, G, G1, G2,
+};
+pub use crate::pairings::verif_hooks as pairing_hooks;
+pub use crate::pairings::{fast_pairing, pairing, G2Prepared};
+pub use crate::u256::U256;
+pub use crate::u512::U512;
+
+pub fn u256_limbs(a: &U256) -> [u64; 4] {
+    [a[0], a[1], a[2], a[3]]
+}
+pub fn u512_limbs(a: &U512) -> [u64; 8] {
+    [a[0], a[1], a[2], a[3], a[4], a[5], a[6], a[7]]
+}
+pub fn fq_from_raw(l: [u64; 4]) -> Fq {
+    Fq(U256::from(l))
+}
+pub fn fq_raw(a: &Fq) -> [u64; 4] {
+    u256_limbs(&a.0)
+}
+pub fn fr_from_raw(l: [u64; 4]) -> Fr {
+    Fr(U256::from(l))
+}
+pub fn fr_raw(a: &Fr) -> [u64; 4] {
+    u256_limbs(&a.0)
+}
+pub fn fq_into_u256(a: Fq) -> U256 {
+    a.into()
+}
+pub fn fr_into_u256(a: Fr) -> U256 {
+    a.into()
+}
+pub fn fq_sum_of_products2(a: &[Fq; 2], b: &[Fq; 2]) -> Fq {
+    Fq::sum_of_products(a, b)
+}
+pub fn fq_sum_of_products4(a: &[Fq; 4], b: &[Fq; 4]) -> Fq {
+    Fq::sum_of_products(a, b)
+}
+pub fn u256_add_carry(a: &mut U256, modulo: &U256) {
+    a.add_carry(modulo)
+}
+pub fn u256_subtract_modulus_with_carry(a: &mut U256, modulo: &U256, carry: bool) {
+    a.subtract_modulus_with_carry(modulo, carry)
+}
+pub fn fq2_parts(a: &Fq2) -> (Fq, Fq) {
+    (a.c0, a.c1)
+}
+pub fn fq4_parts(a: &Fq4) -> (Fq2, Fq2) {
+    (a.c0, a.c1)
+}
+pub fn fq12_parts(a: &Fq12) -> (Fq4, Fq4, Fq4) {
+    (a.c0, a.c1, a.c2)
+}
+pub fn g_parts<P: GroupParams>(a: &G<P>) -> (P::Base, P::Base, P::Base) {
+    (a.x, a.y, a.z)
+}
+// wrappers <-> internals
+pub fn wrap_fq(a: Fq) -> crate::Fq {
+    crate::Fq(a)
+}
+pub fn unwrap_fq(a: crate::Fq) -> Fq {
+    a.0
+}
+pub fn wrap_fr(a: Fr) -> crate::Fr {
+    crate::Fr(a)
+}
+pub fn unwrap_fr(a: crate::Fr) -> Fr {
+    a.0
+}
+pub fn wrap_fq2(a: Fq2) -> crate::Fq2 {
+    crate::Fq2(a)
+}
+pub fn unwrap_fq2(a: crate::Fq2) -> Fq2 {
+    a.0
+}
+pub fn wrap_g1(a: G1) -> crate::G1 {
+    crate::G1(a)
+}
+pub fn unwrap_g1(a: crate::G1) -> G1 {
+    a.0
+}
+pub fn wrap_g2(a: G2) -> crate::G2 {
+    crate::G2(a)
+}
+pub fn unwrap_g2(a: crate::G2) -> G2 {
+    a.0
+}
+pub fn wrap_gt(a: Fq12) -> crate::Gt {
+    crate::Gt(a)
+}
+pub fn unwrap_gt(a: crate::Gt) -> Fq12 {
+    a.0
+}
